@@ -66,6 +66,15 @@ def _program(draw):
     nested = None
     if prob(draw, 0.5):
         nested = {"a": draw(st.integers(0, len(topo) - 1)), "len": draw(st.integers(1, 3)), "inner_bind": draw(st.booleans()), "select_out": draw(st.booleans())}
+        # Inside a nested graph a defaulted input is resolved ONCE at the wrapper and the same object is handed to every inner
+        # consumer, so two inner nodes that both mutate it see each other's marks in completion order (observation O1 in
+        # DESIGN.md section 5; a schedule effect inside one run, not a leak between runs): keep one mutating consumer per wrapper.
+        S = topo[nested["a"]: nested["a"] + nested["len"]]
+        for p in mut_params:
+            users = [x for x in S if p in x["params"]]
+            if len(users) >= 2:
+                nested = None
+                break
     return {"topo": topo, "bind": bind, "nested": nested, "order": draw(st.permutations(list(range(len(topo)))))}
 
 
@@ -173,7 +182,7 @@ class State:
     def _pick(self, i):
         return self.progs[i % len(self.progs)] if self.progs else None
 
-    def _after_run(self, pr, out, variant, kind, tag, caller=None, caller_snapshot=None):
+    def _after_run(self, pr, out, variant, kind, tag, caller=None, caller_snapshot=None, provided=None):
         want = pr.twin_form(variant, kind)
         got = _form(out, pr.ctx)
         if got != want:
@@ -187,7 +196,7 @@ class State:
             if n is None:
                 continue
             for pos, pname in enumerate(n["params"]):
-                if pname in pr.bound_objs and (caller is None or pname not in caller):
+                if pname in pr.bound_objs and pname not in (provided if provided is not None else (caller or {})):
                     if raw[pos] is not pr.bound_objs[pname]:
                         raise Violation("c18.bound_value_copied", f"[{tag}] node {fid} received {type(raw[pos]).__name__} for bound parameter {pname!r} which is not the bound object itself (equal={raw[pos] == pr.bound_objs[pname]})",
                                         nested=bool(pr.spec["nested"]))
@@ -245,7 +254,7 @@ class State:
             out = Outcome("raised", None, e)
         except Exception as e:  # noqa: BLE001
             out = Outcome("raised", None, e)
-        self._after_run(pr, out, op["variant"], "async" if op["async"] else "sync", f"run(values, **{{{kwname}}}) variant {op['variant']}", caller=base, caller_snapshot=snap)
+        self._after_run(pr, out, op["variant"], "async" if op["async"] else "sync", f"run(values, **{{{kwname}}}) variant {op['variant']}", caller=base, caller_snapshot=snap, provided=set(vals))
 
     def op_gather(self, op):
         prs = [self._pick(i) for i in op["ps"]]
